@@ -6,19 +6,19 @@ TIERS = {
         "thorough": {"variants": 24, "runs_per_profile": 64, "budget_s": 560, "min_budget": 150},
     },
     "getter": {
-        "quick": {"runs": 640, "budget_s": 70, "min_budget": 150},
+        "quick": {"runs": 1600, "budget_s": 70, "min_budget": 150},
         "thorough": {"runs": 20000, "budget_s": 540, "min_budget": 300},
     },
     "versions": {
-        "quick": {"runs": 640, "budget_s": 70, "min_budget": 150},
+        "quick": {"runs": 1600, "budget_s": 70, "min_budget": 150},
         "thorough": {"runs": 20000, "budget_s": 540, "min_budget": 300},
     },
     "algebra": {
-        "quick": {"runs": 640, "budget_s": 70, "min_budget": 150},
+        "quick": {"runs": 1920, "budget_s": 70, "min_budget": 150},
         "thorough": {"runs": 20000, "budget_s": 540, "min_budget": 300},
     },
     "values": {
-        "quick": {"runs": 640, "budget_s": 70, "min_budget": 150},
+        "quick": {"runs": 1600, "budget_s": 70, "min_budget": 150},
         "thorough": {"runs": 20000, "budget_s": 540, "min_budget": 300},
     },
     "paths": {
@@ -30,7 +30,7 @@ TIERS = {
         "thorough": {"runs": 6000, "budget_s": 420, "min_budget": 300},
     },
     "derived": {
-        "quick": {"runs": 480, "budget_s": 80, "min_budget": 150},
+        "quick": {"runs": 1440, "budget_s": 80, "min_budget": 150},
         "thorough": {"runs": 20000, "budget_s": 540, "min_budget": 300},
     },
     "crud": {
@@ -38,11 +38,11 @@ TIERS = {
         "thorough": {"runs": 8000, "budget_s": 540, "min_budget": 300},
     },
     "last": {
-        "quick": {"runs": 480, "budget_s": 80, "min_budget": 150},
+        "quick": {"runs": 1440, "budget_s": 80, "min_budget": 150},
         "thorough": {"runs": 20000, "budget_s": 540, "min_budget": 300},
     },
     "finders": {
-        "quick": {"runs": 480, "budget_s": 80, "min_budget": 150},
+        "quick": {"runs": 1440, "budget_s": 80, "min_budget": 150},
         "thorough": {"runs": 20000, "budget_s": 540, "min_budget": 300},
     },
     "crash": {
